@@ -41,7 +41,14 @@ def record(db, raw, tier: str, seed: int):
     n_random = {"quick": 6, "thorough": 120, "selftest": 2}[tier]
     recs, meta = [], []
     for d in db["defs"]:
-        for tag, payload in corpus.payloads_for(d, rng, n_random, pairwise=(tier == "thorough")):
+        first = None
+        for tag, payload in list(corpus.payloads_for(d, rng, n_random, pairwise=(tier == "thorough"))) + [("again", None)]:
+            if tag == "base":
+                first = payload
+            if tag == "again":              # the first payload once more, after everything else the decoder has seen
+                if first is None:
+                    continue
+                payload = first
             o = observe(dec, d, raw_by_id[d["id"]], payload)
             if isinstance(o, tuple):
                 msg = o[1]
